@@ -280,11 +280,67 @@ def bounded(tier, seed):
                     return 'after this history getreader answers %s for %s (it answered %s before)' % (got[diff[0]].__name__, diff[0], base[diff[0]].__name__)
                 return None
             run.case('C15:history ' + ' ; '.join(names[-1:]), tuple(names), t)
+        # --- the other self-describing formats (shipped samples, copied under names with no suffix and with a foreign suffix) ---
+        import PseudoNetCDF.testcase as T
+        sbase = os.path.dirname(T.__file__)
+        samples = [('uamiv', 'camxfiles/uamiv/test.uamiv'), ('lateral_boundary', 'camxfiles/lateral_boundary/test.lateral_boundary'),
+                   ('ffi1001', 'icarttfiles/test.ffi1001'), ('bpch', 'geoschemfiles/test.bpch')]
+        pool = {}
+        for fmt, rel in samples:
+            for nm in ('noext_' + fmt, 'as_' + fmt + '.dat'):
+                d_ = os.path.join(tmp, 'pool_' + nm.replace('.', '_'))
+                os.makedirs(d_, exist_ok=True)
+                shutil.copy(os.path.join(sbase, rel), os.path.join(d_, nm))
+                if fmt == 'bpch':
+                    for x_ in ('tracerinfo.dat', 'diaginfo.dat'):
+                        shutil.copy(os.path.join(sbase, 'geoschemfiles', x_), d_)
+                pool[nm] = (fmt, os.path.join(d_, nm))
+        # a short ICARTT file written by the library itself (fewer than 28 lines)
+        from PseudoNetCDF.icarttfiles.ffi1001 import ncf2ffi1001
+        sf = P.PseudoNetCDFFile()
+        sf.createDimension('POINTS', 3)
+        for k_, v_ in dict(PI_NAME='A', ORGANIZATION_NAME='Org', SOURCE_DESCRIPTION='i', MISSION_NAME='M', VOLUME_INFO='1, 1', TIME_INTERVAL='1',
+                           INDEPENDENT_VARIABLE='Start_UTC', SDATE='2010, 01, 02', WDATE='2010, 01, 03').items():
+            setattr(sf, k_, v_)
+        sf.createVariable('Start_UTC', 'd', ('POINTS',), values=np.arange(3) * 60., units='seconds')
+        sf.createVariable('O3', 'd', ('POINTS',), values=np.array([1., 2., 3.]), units='ppbv', missing_value=-999.)
+        d_ = os.path.join(tmp, 'pool_short_icartt')
+        os.makedirs(d_)
+        ncf2ffi1001(sf, os.path.join(d_, 'short_icartt')).close()
+        pool['short_icartt'] = ('ffi1001', os.path.join(d_, 'short_icartt'))
+
+        def same_content(a, e):
+            if type(a) is not type(e):
+                return 'reader %s, with the format named %s' % (type(a).__name__, type(e).__name__)
+            if {k: len(v) for k, v in a.dimensions.items()} != {k: len(v) for k, v in e.dimensions.items()}:
+                return 'dimensions differ'
+            if list(a.variables.keys()) != list(e.variables.keys()):
+                return 'variable names differ'
+            for k in list(a.variables.keys())[:6]:
+                x, y = np.ma.asarray(a.variables[k][...]), np.ma.asarray(e.variables[k][...])
+                if x.shape != y.shape or x.dtype.kind in 'fiu' and not np.ma.allequal(x, y):
+                    return 'variable %s differs' % k
+            return None
+        for nm, (fmt, path) in pool.items():
+            def t_named(fmt=fmt, path=path):
+                return same_content(pncopen(path), pncopen(path, format=fmt))
+            run.case('C15:auto-detected = format named (%s)' % fmt, nm, t_named)
+        base2 = {nm: getreader(pth) for nm, (fmt, pth) in pool.items()}
+        for a_, b_ in itertools.permutations(list(pool)[::2] + ['short_icartt'], 2):
+            def t_hist(a_=a_, b_=b_):
+                for nm in (a_, b_, a_):
+                    pncopen(pool[nm][1])
+                got = {nm: getreader(pth) for nm, (fmt, pth) in pool.items()}
+                diff = [nm for nm in pool if got[nm] is not base2[nm]]
+                if diff:
+                    return 'after opening %s, %s, %s getreader answers %s for %s (it answered %s before)' % (a_, b_, a_, got[diff[0]].__name__, diff[0], base2[diff[0]].__name__)
+                return None
+            run.case('C15:history over the pool of self-describing formats', (a_, b_), t_hist)
     finally:
         shutil.rmtree(tmp, ignore_errors=True)
     return run.result(
-        rule='every history of opens: registry (names, order, identity of reader classes) unchanged after every operation; getreader answers the same reader for every probe file as before the history',
-        bound='5 small netCDF files (no suffix, .nc, .dat x2, .out); 17 operations (getreader / pncopen auto / pncopen with format netcdf or ioapi); all sequences of length <= %d' % depth)
+        rule='auto-detected open = open with the format named (reader, dimensions, variable data) for every pool file; every history of opens: registry (names, order, identity of reader classes) unchanged after every operation; getreader answers the same reader for every probe file as before the history',
+        bound='5 small netCDF files (no suffix, .nc, .dat x2, .out); 17 operations (getreader / pncopen auto / pncopen with format netcdf or ioapi); all sequences of length <= %d; pool of the other self-describing formats (uamiv, lateral_boundary, ffi1001, bpch samples under names without suffix and with a foreign suffix, a short ICARTT file written by the library): auto-detected = format named, and all ordered pairs of opens' % depth)
 
 
 def bounded_replay(p):
